@@ -588,8 +588,9 @@ func (w *World) DisputeStory(o HistOpts) {
 	// the reporter reports two queries in the same block (two aggregates determined by reports of one height)
 	nrep0 := len(w.Reports)
 	second := []string{"qada", "qsol", "qbtc", "qeth"}[w.pick(4)]
-	if !w.block(o, 2*sec, func() { w.Tip(w.user(), w.currentCycleQuery(), int64(1_000_000+w.pick(5_000_000))) },
-		func() { w.Tip(w.user(), second, int64(1_000_000+w.pick(5_000_000))) },
+	tipper := w.user()
+	if !w.block(o, 2*sec, func() { w.Tip(tipper, w.currentCycleQuery(), int64(1_000_000+w.pick(5_000_000))) },
+		func() { w.Tip(tipper, second, int64(1_000_000+w.pick(5_000_000))) },
 		func() { w.Submit(r, w.currentCycleQuery(), hex32(uint64(1000+w.pick(5)))) },
 		func() { w.Submit(r, second, hex32(uint64(1000+w.pick(5)))) }) {
 		return
@@ -702,6 +703,15 @@ func (w *World) DisputeStory(o HistOpts) {
 		if useOrdered && round == rounds && nv < len(ordered) {
 			nv = len(ordered)
 		}
+		if round == rounds && w.pick(3) == 0 {
+			// landslide: team, the tipper and every reporter vote the same way (quorum in the first stage)
+			ch := disputetypes.VoteEnum(w.pick(3))
+			for _, v := range append([]*Actor{w.Team, tipper}, w.reporters()...) {
+				v := v
+				votes = append(votes, func() { w.Vote(v, id, ch) })
+			}
+			nv = 0
+		}
 		for i := 0; i < nv; i++ {
 			v := voters[w.pick(len(voters))]
 			if useOrdered && i < len(ordered) {
@@ -711,6 +721,14 @@ func (w *World) DisputeStory(o HistOpts) {
 			votes = append(votes, func() { w.Vote(v, id, ch) })
 		}
 		w.block(o, 5*sec, votes...)
+		// a round decided by quorum executes in the next block, long before the dispute's end time: messages that
+		// are still inside the dispute's time window then meet an executed dispute
+		if w.pick(2) == 0 {
+			w.block(o, 2*sec)
+			late := payers[w.pick(len(payers))]
+			w.block(o, 2*sec, func() { w.AddFee(late, id, full.Int64()*2, false) }, func() { w.Vote(w.anyActor(), id, disputetypes.VoteEnum(w.pick(3))) },
+				func() { w.ProposeDispute(late, rep, cat, full.Int64()*2, false, "story-after-exec") })
+		}
 		w.block(o, 48*time.Hour+time.Duration(w.pick(3))*sec) // vote period ends: tally in BeginBlock
 		if round < rounds {
 			p := payers[w.pick(len(payers))]
